@@ -138,7 +138,7 @@ func runC13(ctx *core.Ctx, idx int) *core.Result {
 		if idx%4 == 2 {
 			c = c02Change(idx / 4)
 		} else {
-			c = g.RandomChange()
+			c = g.RandomChangeWide()
 		}
 		if r.Intn(2) == 0 {
 			c.Comments = []string{"desc " + fmt.Sprint(r.Intn(100))}
